@@ -522,5 +522,17 @@ def plan(tier, seed):
             cases.append({"part": "backend", "flavor": flavors[i % 3], "ctype": ctype, "shape": shape, "seed": 0})
     for i in range(8 if q else 80):
         f = ["asyncio", "trio"][i % 2]
-        cases.append({"part": "workload", "flavor": f, "specs": [gen_spec(r, f) for _ in range(25)], "seed": r.randrange(1 << 30)})
+        specs = [gen_spec(r, f) for _ in range(25)]
+        for _ in range(5):
+            # HTTP/2 servers that change MAX_CONCURRENT_STREAMS in legal but unusual sequences (down by a lot and up again,
+            # values above the client's own cap of 100): whatever the slot bookkeeping makes of it, no builtin exception
+            # may reach a caller
+            hi, lo = r.choice([(100, 1), (1000, 10), (128, 2), (100, 98), (250, 3)])
+            up = r.choice([hi, 100, 250])
+            specs.append(gen_spec(r, f, proto="h2", proxy=None, n_origins=1, max_connections=1, n_callers=r.randint(3, 6),
+                                  fault_ops=[], connect_fail=0.0, retries=0, h2_settings={3: hi},
+                                  h2_script={"actions": [{"when": ["head", 1], "do": "settings", "settings": {"3": lo}},
+                                                         {"when": [r.choice(["head", "end"]), r.choice([1, 2, 3])], "do": "settings",
+                                                          "settings": {"3": up}}]}))
+        cases.append({"part": "workload", "flavor": f, "specs": specs, "seed": r.randrange(1 << 30)})
     return cases
